@@ -21,6 +21,7 @@ package grpcgcp
 import (
 	"context"
 	"fmt"
+	"math"
 	"reflect"
 	"strings"
 	"sync"
@@ -127,8 +128,17 @@ func (p *gcpPicker) Pick(info balancer.PickInfo) (balancer.PickResult, error) {
 // by 2^(refresh count since last response) as a time.Duration. This provides
 // exponential backoff when RPCs keep deadline exceeded after consecutive reconnections.
 func (p *gcpPicker) unresponsiveWindow(refreshCnt uint32) time.Duration {
-	factor := uint32(1 << refreshCnt)
-	return time.Millisecond * time.Duration(factor*p.gb.cfg.GetChannelPool().GetUnresponsiveDetectionMs())
+	window := time.Millisecond * time.Duration(p.gb.cfg.GetChannelPool().GetUnresponsiveDetectionMs())
+	// Double the window per refresh in time.Duration arithmetic (uint32
+	// milliseconds wrap around for long windows or many refreshes), saturating
+	// instead of overflowing.
+	for ; refreshCnt > 0; refreshCnt-- {
+		if window > math.MaxInt64/2 {
+			return math.MaxInt64
+		}
+		window *= 2
+	}
+	return window
 }
 
 func (p *gcpPicker) detectUnresponsive(ctx context.Context, scRef *subConnRef, callStarted time.Time, rpcErr error) {
